@@ -48,7 +48,11 @@ func verifHandlerError() (error, *Error) {
 	case 8:
 		err = verifCoderWrap{c: code, inner: &Error{Code: Code(nondetInt32("innercode")), Message: "inner"}}
 	case 0:
-		e := &Error{Code: code, Message: nondetString("msg", 2)}
+		mlen := 2
+		if thorough() {
+			mlen = 8
+		}
+		e := &Error{Code: code, Message: nondetString("msg", mlen)}
 		if nondetBool("hasdata") {
 			e.Data = nondetToken("data")
 			assume(tokKind(e.Data) != tkInvalid)
@@ -73,7 +77,7 @@ func verifHandlerError() (error, *Error) {
 	}
 	depth := nondetChoice("wrap", 3)
 	if thorough() {
-		depth += nondetChoice("wrap2", 2)
+		depth += nondetChoice("wrap2", 6)
 	}
 	for i := 0; i < depth; i++ {
 		err = fmt.Errorf("wrapped: %w", err)
